@@ -10,7 +10,7 @@ EXPLANATION = ("CrossHair (z3): quoting kernels on symbolic ASCII strings; param
                "component property, names in any case.")
 ASSUMPTIONS = [
     "kernel strings are symbolic ASCII of length <= 3 (thorough 4) without double quotes (CrossHair's regex model is not faithful for non-ASCII set members, measured); the non-ASCII QUOTABLE member U+2019 is in the realized alphabet",
-    "route conditions: values over a 15-character alphabet, strings of length <= 3, lists of 2 items (second item <= 2 characters); names from 8 spellings of 4 names",
+    "route conditions: values over a 17-character alphabet, strings of length <= 3, lists of 2 items (second item <= 2 characters); names from 8 spellings of 4 names",
     "a one-element list and its single element serialise identically (X=a); the oracle treats them as the same value",
     "known finding C08-K1 (parameter values containing a backslash or %2C/%3A/%3B/%5C are altered by Contentline.parts) is excluded by its classifier",
 ]
@@ -21,13 +21,13 @@ CONDITIONS = [
 ]
 _W = "Parameters({name: value}) -> text -> Parameters (alone / in a content line / on a component property): same upper-cased name, same value; quoting visible in the text"
 for _route in (0, 1, 2):
-    for _c0 in range(15):
+    for _c0 in range(17):
         CONDITIONS.append(X("roundtrip", "c08.py", "h_params_roundtrip", timeout=300, what=_W,
-                            bound="string value over the 15-char alphabet, len <= 3, first char pinned; one of 8 name spellings per shard",
+                            bound="string value over the 17-char alphabet, len <= 3, first char pinned; one of 8 name spellings per shard",
                             params={"route": _route, "c0": _c0, "islist": False, "k": (_c0 + 3 * _route) % 8}))
 for _route in (0, 2):
-    for _c0 in range(15):
+    for _c0 in range(17):
         CONDITIONS.append(X("roundtrip-list", "c08.py", "h_params_roundtrip", timeout=400, what=_W + " - 2-element list value, arity preserved",
-                            bound="first item len <= 1, second item len <= 2 over the 15-char alphabet",
+                            bound="first item len <= 1, second item len <= 2 over the 17-char alphabet",
                             tiers=("quick", "thorough") if _route == 0 else ("thorough",),
                             params={"route": _route, "c0": _c0, "islist": True, "k": (_c0 + 5) % 8}))
